@@ -23,12 +23,12 @@ def run(ctx):
         ctx.guard("C06", "isnorm", lambda: normal.is_normalized_both(ctx, prog))
         ctx.guard("C06", "complete", lambda: fields.dest_complete(ctx, prog, scope=r"hash_dual::FuzzyHashDualData|FuzzyHashData::<[^>]*>::(normalize|clone_normalized|from_raw_form)", floor=1))
         ctx.guard("C06", "capacity", lambda: parser.capacity_after_collapse(ctx, prog))
-        ctx.guard("C06", "summaries", lambda: summary.check(ctx, prog, '::normalize|::is_normalized|::clone_normalized|verify_block_hash', floor=2))
-        ctx.guard("C06", "path summaries", lambda: summary.check_paths(ctx, prog, '::normalize|::is_normalized|::clone_normalized|verify_block_hash', floor=2))
-        if c in ("dbg", "unsafe_dbg", "strict_dbg"):
-            ctx.guard("C06", "beliefs", lambda: beliefs.census(ctx, prog, beliefs.SCOPES["C06"][0], floor=beliefs.SCOPES["C06"][1]))
         if c == "unchecked":
             ctx.guard("C06", "twins", lambda: features.twins(ctx, prog, scope='FuzzyHashData::<[^>]*>::(new|init)_from_internals|FuzzyHashDualData', floor=2))
         ctx.guard("C06", "casts", lambda: casts.census(ctx, prog, scope='hash::algorithms::normalize_|FuzzyHashData.*::normaliz', floor=1))
         ctx.guard("C06", "writers", lambda: tail.classify_writers(ctx, prog, scope=r"(normalize|from_raw_form|init_from_raw_form|hash_dual::algorithms::compress|core::convert::From<internals::hash::FuzzyHashData<S1, S2, false>>)", floor=3))
+        ctx.guard("C06", "summaries", lambda: summary.check(ctx, prog, '::normalize|::is_normalized|::clone_normalized|verify_block_hash', floor=2))
+        ctx.guard("C06", "path summaries", lambda: summary.check_paths(ctx, prog, '::normalize|::is_normalized|::clone_normalized|verify_block_hash', floor=2))
+        if c in ("dbg", "unsafe_dbg", "strict_dbg"):
+            ctx.guard("C06", "beliefs", lambda: beliefs.census(ctx, prog, beliefs.SCOPES["C06"][0], floor=beliefs.SCOPES["C06"][1]))
     return ctx.finish(EXPL, ["slice::fill has its documented meaning"])
